@@ -81,6 +81,10 @@ func init() {
 		zzPath + ".WaitThreads": inZZWaitThreads,
 		zzPath + ".Settle":      inZZSettle,
 		zzPath + ".Yield":       inZZYield,
+		"context.WithCancel": func(e *Exec, fn *ssa.Function, a []Value) Value {
+			// the derived context is the parent itself; cancel is a no-op (the harness cancels the parent)
+			return TupleV{a[0], &FuncV{Name: "cancel", Native: func(e *Exec, args []Value) Value { return nil }}}
+		},
 		"time.NewTicker": func(e *Exec, fn *ssa.Function, a []Value) Value {
 			// a ticker that never fires within the explored window
 			c := e.newCell(fn.Signature.Results().At(0).Type().(*types.Pointer).Elem())
